@@ -202,11 +202,11 @@ def floors(tier):
     f["rp_paused:gpclone:gp_mf"] = 20 * k
     kk = 1 if tier == "quick" else 8
     for name, n in (("transfer_learning", 30), ("early_complete_before_first_rung", 20), ("early_fail", 15),
-                    ("allow_duplicates", 30), ("restrict_configurations", 10), ("opt_skip_period", 50),
-                    ("opt_skip_init_length", 50), ("no_fantasizing", 10)):
+                    ("allow_duplicates", 30), ("restrict_configurations", 8), ("opt_skip_period", 50),
+                    ("opt_skip_init_length", 50), ("no_fantasizing", 5)):
         f[f"rp_with_option:{name}"] = n * kk
     f["rp_below_num_init_random_after_first_model_based_suggestion:gpclone"] = 3 * kk
-    f["rp_transfer_active_task_below_num_init_random:gpclone"] = 10 * kk
+    f["rp_transfer_active_task_below_num_init_random:gpclone"] = 6 * kk
     f["decided:suggestion_equal"] = 8000 * k
     f["decided:decision_equal"] = 20000 * k
     return f
@@ -482,8 +482,10 @@ def expand(spec):
             p["rc"] = False
             p["points"] = rng.choice(["none", "default"])
             # FiniteRange (and its ordinal relatives) 'cannot be used in active_config_space' (documented assertion)
+            # and without an explicit active config space constants of config_space trip 'active_config_space[..] not in
+            # config_space' (the default active space is config_space itself): no constants, explicit space with max_resource_attr
             p["space"] = {n_: (["uniform", 0.0, 1.0] if d_[0] in ("finrange", "ordinal", "logfinrange") else d_)
-                          for n_, d_ in p["space"].items()}
+                          for n_, d_ in p["space"].items() if d_[0] != "const"}
         if spec.get("early_complete") and kind != "gp_fifo":
             # trials that end before their first rung level: with searcher_data='rungs' they never leave an observation
             # and on_trial_complete cleans up their pending evaluation, so the number of configs known to the searcher
@@ -589,7 +591,7 @@ def build(p, seed):
             space = dict(space, task_id=_choice(list(tr["tasks"])))
             so.update(transfer_learning_task_attr="task_id", transfer_learning_active_task=tr["active"],
                       transfer_learning_model=tr["model"])
-            if tr["active_space"]:
+            if tr["active_space"] or p.get("use_mra"):
                 so["transfer_learning_active_config_space"] = active_space
 
     def common(**kw):
